@@ -59,13 +59,20 @@ inductive Word where
   deriving DecidableEq, Repr
 
 inductive Prod where
-  | set (r : Res)   -- SharedPromise::Set(value / error / exception)
+  | set (r : Res)   -- SharedPromise::Set(value / error / exception); also a `SharedFuture` coroutine's co_return
   | drop            -- ~SharedPromise on a valid promise = Set(StopTag)
+  /-- the shared core is ITSELF the callback of an upstream unique core (Split(f), Connect(f, SharedPromise)) that
+      completes with `r`: it is entered through `SharedCore::Here` (`sym = false`: Promise::Set / Loop) or through
+      `SharedCore::Next` (`sym = true`: a coroutine finishing in final_suspend, symmetric transfer).  Both are
+      `ResultCore::Impl<·, true>` with a unique caller: `GetRef()` = 1, the value is moved in, `caller.DecRef()`, and then
+      the very same `SetResultImpl<·, true>` — the steps on the shared core's word and counter do not differ -/
+  | up (sym : Bool) (r : Res)
   deriving DecidableEq, Repr
 
 def Prod.res : Prod → Res
   | .set r => r
   | .drop => .err
+  | .up _ r => r
 
 /-- observer operations, each on one of the observer's own SharedFuture copies -/
 inductive Op where
@@ -321,7 +328,7 @@ def doJDec (s : State) (c : Cb) : State :=
 def firedIds (s : State) : List Cb := s.fired.map (·.1)
 
 inductive Step : State → Label → State → Prop where
-  /-- SharedPromise::Set / ~SharedPromise: Store, then `exchange(kResult)` -/
+  /-- SharedPromise::Set / ~SharedPromise / SharedCore::Here / SharedCore::Next: Store, then `exchange(kResult)` -/
   | fXchg (s : State) (l : List Cb) (h : s.fpc = .start) (hw : s.word = .list l) : Step s (.fXchg (.list l)) (doXchg s l)
   /-- the DecRef() placed before the last callback -/
   | fDec1 (s : State) (c : Cb) (h : s.fpc = .walk [c] false .begin) :
